@@ -2,10 +2,7 @@ From Coq Require Import List Arith Bool Lia.
 Import ListNotations.
 From LSF Require Import RetryScope.
 
-Section Proofs.
-Variables (pm tm pi ti : nat).
-
-Lemma inner_loop_from k s fuel : k <= tm -> tm - k < fuel ->
+Lemma inner_loop_from tm ti k s fuel : k <= tm -> tm - k < fuel ->
   inner_loop tm ti fuel {| ctx := k; saved := s |} = (map (fun j => ti * 2 ^ j) (seq k (tm - k)), {| ctx := tm; saved := s |}).
 Proof.
   revert k. induction fuel as [|f IH]; intros k Hk Hf; [lia|].
@@ -16,12 +13,12 @@ Proof.
 Qed.
 
 (* the first state of a branch starts from zero whatever the fan-out's own count is, and that count is back when the fan-out fails *)
-Lemma attempt c s : 
+Lemma attempt tm ti c s : 
   inner_loop tm ti (S tm) (enter {| ctx := c; saved := s |}) = (task_delays tm ti, {| ctx := tm; saved := c |}).
 Proof. unfold enter. cbn [ctx]. rewrite inner_loop_from by lia. rewrite Nat.sub_0_r. reflexivity. Qed.
 
 (* C07: retry counters do not leak between the fan-out and the state in its branch, in either direction *)
-Theorem counters_do_not_leak : forall c s, c <= pm ->
+Theorem counters_do_not_leak pm tm pi ti : forall c s, c <= pm ->
   run pm tm pi ti (S (pm - c)) {| ctx := c; saved := s |} = spec tm pi ti (pm - c).
 Proof.
   intros c s Hc. remember (pm - c) as left eqn:E. revert c s Hc E.
@@ -33,17 +30,16 @@ Proof.
 Qed.
 
 (* the whole visit from a fresh context: (pm + 1) attempts, each with the Task's full sequence *)
-Corollary visit : run pm tm pi ti (S pm) {| ctx := 0; saved := 0 |} = spec tm pi ti pm.
-Proof. pose proof (counters_do_not_leak 0 0 ltac:(lia)) as H. rewrite Nat.sub_0_r in H. exact H. Qed.
+Corollary visit pm tm pi ti : run pm tm pi ti (S pm) {| ctx := 0; saved := 0 |} = spec tm pi ti pm.
+Proof. pose proof (counters_do_not_leak pm tm pi ti 0 0 ltac:(lia)) as H. rewrite Nat.sub_0_r in H. exact H. Qed.
 
-Lemma spec_length a : length (spec tm pi ti a) = (S a) * tm + a.
+Lemma spec_length tm pi ti a : length (spec tm pi ti a) = (S a) * tm + a.
 Proof. induction a as [|a IH]; cbn [spec]; [unfold task_delays; rewrite map_length, seq_length; lia|].
   rewrite app_length. cbn [length]. rewrite IH. unfold task_delays. rewrite map_length, seq_length. lia. Qed.
 
 (* hence the Task is invoked exactly (pm + 1) * (tm + 1) times, and the visit ends: MaxAttempts bounds the retries whatever the branch does *)
-Corollary invocations : S (length (run pm tm pi ti (S pm) {| ctx := 0; saved := 0 |})) = (S pm) * (S tm).
+Corollary invocations pm tm pi ti : S (length (run pm tm pi ti (S pm) {| ctx := 0; saved := 0 |})) = (S pm) * (S tm).
 Proof. rewrite visit, spec_length. lia. Qed.
-End Proofs.
 
 (* what the theorem rules out: a delegate that leaves the count in the context (the Task of the second attempt starts at 1) ... *)
 Example leaky_entry_differs :
